@@ -15,6 +15,9 @@ pub struct Summary {
 	pub drift_count: u64,
 	pub samples: Vec<Value>,
 	pub extra: serde_json::Map<String, Value>,
+	/// violation_count broken down by v["kind"]; up to 5 examples of every kind are kept in `violations`
+	pub violation_kinds: std::collections::BTreeMap<String, u64>,
+	pub drift_kinds: std::collections::BTreeMap<String, u64>,
 }
 
 impl Summary {
@@ -26,13 +29,19 @@ impl Summary {
 	}
 	pub fn violation(&mut self, v: Value) {
 		self.violation_count += 1;
-		if self.violations.len() < 20 {
+		let kind = v.get("kind").and_then(|k| k.as_str()).unwrap_or("?").to_string();
+		let n = self.violation_kinds.entry(kind).or_insert(0);
+		*n += 1;
+		if *n <= 5 && self.violations.len() < 60 {
 			self.violations.push(v);
 		}
 	}
 	pub fn drift(&mut self, v: Value) {
 		self.drift_count += 1;
-		if self.drift.len() < 20 {
+		let kind = v.get("kind").and_then(|k| k.as_str()).unwrap_or("?").to_string();
+		let n = self.drift_kinds.entry(kind).or_insert(0);
+		*n += 1;
+		if *n <= 3 && self.drift.len() < 30 {
 			self.drift.push(v);
 		}
 	}
